@@ -530,6 +530,21 @@ class SymReal:
         memo[key] = (a, z3.simplify(dy.t), z3.simplify(dx.t))
         return a
 
+    def arcsin(s):
+        # an angle atom (radians) whose sine is s and whose cosine is the non-negative root: asin ranges over [-pi/2, pi/2]
+        c = ctx()
+        c.safety.append((len(c.pc), z3.And(s.t >= -1, s.t <= 1), 'arcsin argument in [-1, 1]'))
+        return new_atom('asin', rad_per_unit=1.0, cs=((1 - s * s).sqrt().t, s.t))
+
+    def arccos(s):
+        c = ctx()
+        c.safety.append((len(c.pc), z3.And(s.t >= -1, s.t <= 1), 'arccos argument in [-1, 1]'))
+        return new_atom('acos', rad_per_unit=1.0, cs=(s.t, (1 - s * s).sqrt().t))
+
+    def arctan(s):
+        h = (1 + s * s).sqrt()
+        return new_atom('atan1', rad_per_unit=1.0, cs=(1 / h.t, s.t / h.t))
+
     def deg2rad(s): return SymReal(s.t * PI / 180)
     radians = deg2rad
     def rad2deg(s): return SymReal(s.t * 180 / PI)
